@@ -173,7 +173,7 @@ class Terms:
                 return ("bytes", tuple(op.val["bytes"]))
             if op.fn is not None:
                 return ("fn", op.fn.name)
-            return ("constval", op.s[:60])
+            return ("constval", op.s)
         return self.of_place(op.place, depth)
 
 
@@ -230,6 +230,8 @@ def show(t, depth=0):
         return "%s(%s)" % (t[1].split("::")[-1], ",".join(show(a, depth + 1) for a in t[2]))
     if h == "cast":
         return "%s as %s" % (show(t[2], depth + 1), t[1])
+    if h in ("phi", "rec") and len(t) == 2 and isinstance(t[1], int):
+        return "loopvar"
     if h in ("Add", "Sub", "Mul", "Shl", "Shr", "BitAnd", "BitOr", "BitXor", "Eq", "Ne", "Lt", "Le", "Gt", "Ge", "Div", "Rem"):
         return "%s(%s,%s)" % (h, show(t[1], depth + 1), show(t[2], depth + 1))
     return "%s(%s)" % (h, ",".join(show(x, depth + 1) for x in t[1:]))
